@@ -102,6 +102,7 @@ def process_chunk(cases):
         oracle_fails = []
         oracle_errors = []
         status_fail = False
+        malformed = False
         state_hash = hashlib.md5()
         for li, l in enumerate(case['lines']):
             io = impl_out[ci][li]
@@ -143,7 +144,9 @@ def process_chunk(cases):
                 same = True
             if not same and first_diff is None:
                 first_diff = dict(line=li, op=l, impl=io, model=mo)
-            if not same and not status_fail:
+            if io.startswith('err'):
+                malformed = True            # the script names an object it never made (a shrunk script): no verdicts from here on
+            if not same and not status_fail and not malformed:
                 # (the first such event of the script, also when an observation differed before it)
                 status_fail = True
                 if io.startswith('crash:') and mo is not None and not mo.startswith('err') and mo != 'unmodelled':
@@ -170,7 +173,7 @@ def process_chunk(cases):
             failures.append(dict(kind='harness-error', tag=case.get('tag'), case=case, error='oracle raised: %r' % (oracle_errors[:2],)))
         if oracle_fails:
             failures.append(dict(kind='impl-violation', tag=case.get('tag'), case=case, oracle=[list(x) for x in oracle_fails[:5]],
-                                 first_difference=first_diff, oracle_errors=len(oracle_errors)))
+                                 first_difference=first_diff, oracle_errors=len(oracle_errors), malformed=malformed))
         elif first_diff is not None:
             failures.append(dict(kind='correspondence', tag=case.get('tag'), case=case, first_difference=first_diff))
     stats['wall_s'] = time.time() - t0
@@ -223,8 +226,8 @@ def still_fails(case, kind, oracle=None):
             if str(d.get('impl', '')).startswith('err') or str(d.get('model', '')).startswith('err'):
                 continue
             return True
-        if x.get('oracle_errors'):
-            continue            # a candidate in which an oracle could not be evaluated is not a valid script
+        if x.get('oracle_errors') or x.get('malformed'):
+            continue            # a candidate in which an oracle could not be evaluated / an object is missing is not a valid script
         if oracle is None or any(o[1].split()[0] == oracle[0] and o[2].split()[:3] == oracle[1] for o in (x.get('oracle') or [])):
             return True
     return False
